@@ -223,7 +223,7 @@ def run_shard(shard, tier, seed):
         doms = X.domains(sc)
         doms[X.STR] = doms[X.STR] + EXTRA_STR
         doms[X.BYTES] = doms[X.BYTES] + EXTRA_BYTES
-        exprs = X.enumerate_exprs(2, sc, cap_per_type=1500 if tier == "quick" else None)
+        exprs = X.enumerate_exprs(2, sc, cap_per_type=1500 if tier == "quick" else None, cap_from_depth=2)
         mine = exprs[shard::NSHARDS]
         for e in mine:
             res.states += 1
@@ -276,7 +276,7 @@ def replay(data):
         doms = X.domains(sc)
         doms[X.STR] = doms[X.STR] + EXTRA_STR
         doms[X.BYTES] = doms[X.BYTES] + EXTRA_BYTES
-        for e in X.enumerate_exprs(2, sc, cap_per_type=3000):
+        for e in X.enumerate_exprs(2, sc):
             if e.name == data["expr"]:
                 res = ShardResult()
                 p = []
